@@ -8,8 +8,9 @@ HERE = os.path.dirname(os.path.abspath(__file__))
 ROOT = os.path.dirname(HERE)
 if ROOT not in sys.path:
     sys.path.insert(0, ROOT)
-if '/repo' not in sys.path:
-    sys.path.insert(1, '/repo')
+REPO = os.environ.get('VERIF_REPO', '/repo')      # the tree under analysis (default: /repo itself)
+if REPO not in sys.path:
+    sys.path.insert(1, REPO)
 DEPS = os.path.join(ROOT, '.deps')
 if DEPS not in sys.path:
     sys.path.append(DEPS)      # after /venv's site-packages: only adds what /venv lacks (z3, jsonschema)
